@@ -224,9 +224,119 @@ fn run_xargs_sys(ctx: &Ctx, c: &SysCase) -> (String, String) {
     (req, imp)
 }
 
+/// replace mode: `xargs -0 -I {} [-s S] REC WORD…`; a word is `lit` bytes followed by `occ` times `{}`
+struct ReplCase {
+    stack: u64,
+    s: usize,
+    template: Vec<(usize, usize)>,
+    lines: Vec<usize>,
+}
+
+/// runs the binary in replace mode; the answer is the status and, per started command, the total
+/// number of bytes of its argument vector (the command after substitution)
+fn run_xargs_repl(ctx: &Ctx, c: &ReplCase) -> (String, String) {
+    use std::os::unix::ffi::OsStrExt;
+    let dir = ctx.scratch("c06i");
+    let log = dir.join("log");
+    let rec = ctx.recorder();
+    let mut cmd = Command::new(ctx.bin("xargs"));
+    cmd.arg("-0").arg("-I").arg("{}");
+    if c.s > 0 {
+        cmd.arg("-s").arg(c.s.to_string());
+    }
+    cmd.arg(&rec);
+    for (lit, occ) in &c.template {
+        cmd.arg(format!("{}{}", "w".repeat(*lit), "{}".repeat(*occ)));
+    }
+    cmd.env_clear();
+    let mut env_lens = vec![];
+    cmd.env("FU_REC_LOG", &log);
+    env_lens.push("FU_REC_LOG".len() + 1 + log.as_os_str().as_bytes().len());
+    cmd.env("FU_REC_COMPACT", "1");
+    env_lens.push("FU_REC_COMPACT=1".len());
+    cmd.stdin(Stdio::piped()).stdout(Stdio::null()).stderr(Stdio::piped());
+    with_stack(&mut cmd, c.stack);
+    let mut child = cmd.spawn().expect("spawn xargs");
+    {
+        let mut si = std::io::BufWriter::new(child.stdin.take().unwrap());
+        for len in &c.lines {
+            let mut a = vec![b'x'; *len];
+            a.push(0);
+            if si.write_all(&a).is_err() {
+                break;
+            }
+        }
+        let _ = si.flush();
+    }
+    let out = child.wait_with_output().expect("wait xargs");
+    let status = crate::recorder::status_code(out.status);
+    let text = std::fs::read_to_string(&log).unwrap_or_default();
+    let mut totals = vec![];
+    for l in text.lines() {
+        let f: Vec<&str> = l.split(' ').collect();
+        if f.len() >= 5 && f[0] == "C" {
+            totals.push(f[2].to_string());
+        }
+    }
+    let _ = std::fs::remove_dir_all(&dir);
+    let imp = format!("st={} {}", status, crate::wire::list(&totals));
+    let tw: Vec<String> = c.template.iter().map(|(l, o)| format!("{l}:{o}")).collect();
+    let envs: Vec<String> = env_lens.iter().map(|l| format!("1*{l}")).collect();
+    let lines: Vec<String> = c.lines.iter().map(|l| format!("1*{l}")).collect();
+    let req = format!(
+        "xargs-sysI {} {} {} {} {} {}",
+        stack_wire(c.stack),
+        c.s,
+        rec.as_os_str().as_bytes().len(),
+        crate::wire::list(&tw),
+        crate::wire::list(&envs),
+        crate::wire::list(&lines)
+    );
+    (req, imp)
+}
+
+fn replace_mode(ctx: &Ctx, sink: &mut Sink, rng: &mut Rng) {
+    let mut cases = vec![
+        // one occurrence behind a prefix: the argument grows past the per-argument limit by one byte
+        ReplCase { stack: 8 << 20, s: 0, template: vec![(1, 1)], lines: vec![10, 131_071, 10] },
+        ReplCase { stack: 8 << 20, s: 0, template: vec![(1, 1)], lines: vec![10, 131_070, 10] },
+        // thirty occurrences of a line that is fine once: 3 MB on a 2 MiB budget
+        ReplCase { stack: 8 << 20, s: 0, template: vec![(0, 1); 30], lines: vec![5, 100_000, 5] },
+        ReplCase { stack: 8 << 20, s: 0, template: vec![(0, 1); 20], lines: vec![5, 100_000, 5] },
+        // two occurrences in one word
+        ReplCase { stack: 8 << 20, s: 0, template: vec![(3, 2)], lines: vec![70_000, 7, 60_000] },
+        // -s counts the command after substitution
+        ReplCase { stack: 8 << 20, s: 4000, template: vec![(10, 3)], lines: vec![100, 1200, 1400, 100] },
+        // a small stack: the budget itself is small
+        ReplCase { stack: 512 << 10, s: 0, template: vec![(0, 1); 4], lines: vec![100, 30_000, 33_000, 100] },
+    ];
+    let nrand = if ctx.thorough { 40 } else { 5 };
+    for _ in 0..nrand {
+        let stack = *rng.pick(&[512u64 << 10, 1 << 20, 8 << 20, UNLIMITED]);
+        let words = rng.range(1, 6);
+        let template: Vec<(usize, usize)> = (0..words).map(|_| (rng.below(40), rng.below(4))).collect();
+        let nl = rng.range(1, 6);
+        let lines: Vec<usize> = (0..nl).map(|_| match rng.below(4) { 0 => rng.range(1, 50), 1 => rng.range(1000, 40_000), 2 => rng.range(40_000, 131_072), _ => rng.range(100, 2000) }).collect();
+        let s = if rng.chance(1, 4) { rng.range(2000, 100_000) } else { 0 };
+        cases.push(ReplCase { stack, s, template, lines });
+    }
+    for c in &cases {
+        let (req, imp) = run_xargs_repl(ctx, c);
+        let mut tags = vec!["xargs-binary", "replace-mode", "nt"];
+        if c.template.iter().map(|t| t.1).sum::<usize>() > 1 { tags.push("several-occurrences"); }
+        if c.s > 0 { tags.push("s-option"); }
+        sink.bump("xargs_repl_runs", 1);
+        sink.push(Case { req, imp, tags });
+    }
+}
+
 pub fn run_prop(ctx: &Ctx, sink: &mut Sink) {
     let mut rng = Rng::new(ctx.seed).fork(6);
     probe_kernel(sink, ctx);
+    {
+        let mut r2 = Rng::new(ctx.seed).fork(66);
+        replace_mode(ctx, sink, &mut r2);
+    }
     // corpus: the two defects repaired by the fix: commit
     let mut cases = vec![
         SysCase { fixed: vec![], mb: false, stack: UNLIMITED, n: 0, s: 0, envc: 0, envlen: 0, groups: vec![(400_000, 6)] },
